@@ -752,6 +752,9 @@ class IntervalEval:
             if base == "min":
                 return AInt(min(a0.lo, b.lo), min(a0.hi, b.hi), a0.ty)
             return AInt(max(a0.lo, b.lo), max(a0.hi, b.hi), a0.ty)
+        if path == "std::cmp::Ord::clamp" and len(args) == 3 and all(isinstance(x, AInt) for x in args):
+            lo, hi = args[1], args[2]
+            return AInt(min(max(a0.lo, lo.lo), hi.hi), max(min(a0.hi, hi.hi), lo.lo), a0.ty)
         # slices / iterators
         if base in ("iter", "iter_mut", "into_iter") and isinstance(a0, (ASlice, AIter)):
             return AIter(a0.elem, a0.maxlen, a0.minlen)
